@@ -139,3 +139,29 @@ Theorem nexus_requested_titles_are_assigned : forall (esc norm : text -> text) (
   = assign_titles esc norm (map (fun x => title_source idstr (fst x) (snd x)) blocks) (map norm (map snd given)).
 Proof. exact request_titles_assign. Qed.
 Print Assumptions nexus_requested_titles_are_assigned.
+
+(* ---- bridge to the NEXUS matrix reader generated for property C20 (Gen/NexusChars.v) ---- *)
+From DV Require Model.Tokenizer Model.C20Nexus2 Gen.NexusChars Proofs.C09GenNexusRead.
+
+(* The row-label step of the MATRIX row loop: NexusReader._get_taxon GENERATED from the source (proved equal to
+   C20's skeleton in Props/C20Gen.v) against this property's hand model C09Nexus.get_taxon.  On reader states that
+   describe the same namespace (same labels in the same order, same NTAX, case-insensitive labels) both deliver the
+   same taxon index and related states again - the label is found, or appended while the namespace holds fewer
+   than NTAX members - or both raise TooManyTaxaError (a DataParseError); the generated step leaves the matrices
+   and the tokenizer position alone.  (The rest of C09's NEXUS reader model - token lists, state identities of the
+   cells - has no counterpart in the generated reader, which abstracts a state to unit: see manifest/C09.json.) *)
+Theorem gen_nexus_get_taxon_is_model :
+  forall (lower : text -> text) (label : text) (st : C20Nexus2.nstate) (ti : nat) (x : nx_state),
+  C20Nexus2.tns_labels st ti = x_ns x /\ C20Nexus2.n_ntax st = x_ntax x /\ x_cs x = false
+    /\ (ti < length (C20Nexus2.n_tns st))%nat ->
+  match NexusChars.NexusReader_get_taxon lower ti (Some label) st, C09Nexus.get_taxon lower x label with
+  | C20Nexus2.ROk (i, st'), Ok (x', j) =>
+      i = j
+      /\ (C20Nexus2.tns_labels st' ti = x_ns x' /\ C20Nexus2.n_ntax st' = x_ntax x' /\ x_cs x' = false
+          /\ (ti < length (C20Nexus2.n_tns st'))%nat)
+      /\ C20Nexus2.n_mats st' = C20Nexus2.n_mats st /\ C20Nexus2.n_rest st' = C20Nexus2.n_rest st
+  | C20Nexus2.RErr e1, Err e2 => e1 = ParseErr /\ e2 = ParseErr
+  | _, _ => False
+  end.
+Proof. exact C09GenNexusRead.gen_get_taxon_bridge. Qed.
+Print Assumptions gen_nexus_get_taxon_is_model.
